@@ -40,14 +40,9 @@ class CallGraph:
         """Workspace bodies a function constant may denote."""
         f = self.f
         res = []
-        cands = []
-        if fc.get('resolved'):
-            cands.append(fc['resolved'])
-        cands.append(fc['fn'])
-        for c in cands:
-            b = f.body(c)
-            if b is not None:
-                return [b], False
+        b = f.body_of_fnconst(fc)
+        if b is not None:
+            return [b], False
         # trait method without resolution -> all workspace impls
         if fc.get('trait') and not fc.get('resolved'):
             method = fc['fn'].rsplit('::', 1)[-1]
@@ -66,10 +61,13 @@ class CallGraph:
             name = f.norm(fc.get('resolved') or fc['fn'])
             if tg:
                 for t in tg:
-                    edges.add(t.path if f.bodies.get(t.path) is t else self._key_of(t))
+                    edges.add(self._key_of(t))
             else:
                 ext.add(name)
-            sites.append({'bb': bb, 'how': how, 'declared': f.norm(fc['fn']), 'resolved': f.norm(fc.get('resolved')),
+            if tg and not expanded:
+                name = tg[0].path
+            sites.append({'bb': bb, 'how': how, 'declared': tg[0].path if (tg and not expanded) else f.norm(fc['fn']),
+                          'resolved': tg[0].path if (tg and not expanded) else f.norm(fc.get('resolved')),
                           'trait': f.norm(fc.get('trait')), 'self_ty': fc.get('self_ty'),
                           'targets': [t.path for t in tg], 'expanded': expanded,
                           'gargs': fc.get('gargs', [])})
@@ -111,10 +109,7 @@ class CallGraph:
         # locals of closure type created elsewhere (e.g. moved in) are covered by 'aggr closure'
 
     def _key_of(self, body):
-        for k, v in self.f.bodies.items():
-            if v is body:
-                return k
-        return body.path
+        return getattr(body, 'key_in_facts', body.path)
 
     # -- queries ----------------------------------------------------------------------
     def reachable(self, roots):
